@@ -5,8 +5,15 @@ CONSTANTS
   MaxSend = 3
   Wall = {}
   MaxPublish = 0
+  Handles = {}
+  GCaps = {1}
+  SplitCommit = FALSE
   PendingWithoutWake = FALSE
+  SkipBudget = 0
+  BudgetSelfWake = FALSE
   ClockAsCoded = FALSE
+  FloodLens = {}
+  FloodCap = 1
   KeepHist = TRUE
   AtomicPolls = TRUE
 INVARIANTS
